@@ -113,26 +113,38 @@ Proof.
 Qed.
 
 (* ---------------- rho / initial_infecteds (C05) ---------------- *)
-Lemma with_initial_both_rejected : forall g i0 rho k, with_initial g (Some i0) (Some rho) k = Fail EoNError.
+Lemma with_initial_both_rejected : forall g pop i0 rho k, with_initial g pop (Some i0) (Some rho) k = Fail EoNError.
 Proof. reflexivity. Qed.
 
 Lemma round_same : forall x, d_round_half_even x = Gillespie.round_half_even x.
 Proof. reflexivity. Qed.
 
-Lemma with_initial_rho : forall g rho k out, NoDup (gnodes g) ->
-  reach (with_initial g None rho k) out ->
-  let n := match rho with None => 1%Z | Some r => d_round_half_even (Qnat (length (gnodes g)) * r) end in
-  (0 <= n)%Z /\ exists i0, NoDup i0 /\ incl i0 (gnodes g) /\ Z.of_nat (length i0) = n /\ reach (k i0) out.
+Lemma sample_wf_pop : forall (pop : list node) n i, NoDup pop -> (n <= length pop)%nat ->
+  let i0 := concat (firstn n (rotate i (map knode pop))) in
+  NoDup i0 /\ incl i0 pop /\ length i0 = n.
 Proof.
-  intros g rho k out Hnd H. cbv zeta.
+  intros pop n i Hnd Hn. cbv zeta. rewrite GillespieP.rotate_map, GillespieP.firstn_map, GillespieP.concat_knode.
+  split; [|split].
+  - apply GillespieP.NoDup_firstn. eapply Permutation_NoDup; [apply Permutation_sym; apply GillespieP.rotate_perm|exact Hnd].
+  - intros x Hx. apply (Permutation_in x (GillespieP.rotate_perm _ i pop)).
+    rewrite <- (firstn_skipn n (rotate i pop)). apply in_or_app. left. exact Hx.
+  - apply firstn_length_le. rewrite (Permutation_length (GillespieP.rotate_perm _ i pop)). exact Hn.
+Qed.
+
+Lemma with_initial_rho : forall g pop rho k out, NoDup pop ->
+  reach (with_initial g pop None rho k) out ->
+  let n := match rho with None => 1%Z | Some r => d_round_half_even (Qnat (length (gnodes g)) * r) end in
+  (0 <= n)%Z /\ exists i0, NoDup i0 /\ incl i0 pop /\ Z.of_nat (length i0) = n /\ reach (k i0) out.
+Proof.
+  intros g pop rho k out Hnd H. cbv zeta.
   assert (Hgen : forall n : Z,
     reach (if (n <? 0)%Z then Fail ValueErr
-           else Sample (map knode (gnodes g)) (Z.to_nat n) (fun ks => k (concat ks))) out ->
-    (0 <= n)%Z /\ exists i0, NoDup i0 /\ incl i0 (gnodes g) /\ Z.of_nat (length i0) = n /\ reach (k i0) out).
+           else Sample (map knode pop) (Z.to_nat n) (fun ks => k (concat ks))) out ->
+    (0 <= n)%Z /\ exists i0, NoDup i0 /\ incl i0 pop /\ Z.of_nat (length i0) = n /\ reach (k i0) out).
   { intros n Hn. destruct (n <? 0)%Z eqn:En; [inversion Hn|]. apply Z.ltb_ge in En. split; [exact En|].
     inversion Hn as [| | | | | | |? ? ? i ? Hl Hk]; subst. rewrite map_length in Hl.
-    pose proof (GillespieP.sample_wf g Hnd (Z.to_nat n) i Hl) as Hs. cbv zeta in Hs. destruct Hs as [A [B C]].
-    exists (concat (firstn (Z.to_nat n) (rotate i (map knode (gnodes g))))).
+    pose proof (sample_wf_pop pop (Z.to_nat n) i Hnd Hl) as Hs. cbv zeta in Hs. destruct Hs as [A [B C]].
+    exists (concat (firstn (Z.to_nat n) (rotate i (map knode pop)))).
     split; [exact A|]. split; [exact B|]. split; [|exact Hk].
     apply (f_equal Z.of_nat) in C. rewrite Z2Nat.id in C by exact En. exact C. }
   unfold with_initial in H. destruct rho as [r|]; apply Hgen; exact H.
